@@ -564,7 +564,21 @@ where
         make_partial_derisval!("=="),
         make_partial_derisval!("<="),
         make_partial_derisval!(">="),
-        make_partial_per_operand!("if"),
+        PartialDerivative {
+            repr: "if",
+            bin_op: Some(
+                |f: ValueDerivative<T, OF, LM>,
+                 g: ValueDerivative<T, OF, LM>|
+                 -> ExResult<ValueDerivative<T, OF, LM>> {
+                    // the condition is not differentiated but decides also about the derivative
+                    Ok(ValueDerivative {
+                        val: f.val.operate_bin(g.val.clone(), "if")?,
+                        der: f.der.operate_bin(g.val, "if")?,
+                    })
+                },
+            ),
+            unary_outer_op: None,
+        },
         make_partial_per_operand!("else"),
         PartialDerivative {
             repr: "/",
